@@ -30,7 +30,12 @@ REQUIRED_THEOREMS = [
     "mkUnit_valid", "mkCartesian_valid", "mkRadial_valid", "mkCylindrical_valid", "classFromState_valid",
     "fromState_valid", "constructed_grid_roundtrips", "restored_grid_roundtrips", "copy_valid",
     "valid_cartesian", "valid_polar", "valid_spherical", "valid_cylindrical",
+    # Props/C14b.lean: axes names, derived / cached attributes of a restored instance
+    "axes_cartesian", "axes_polar", "axes_spherical", "axes_cylindrical", "numAxesInit_eq", "gridEq_axes",
+    "construct_coherent", "read_coherent", "read_value_fresh", "restore_eq_construct", "reachable_coherent",
+    "restored_instance_fresh", "pickle_keeps_stale_attribute", "cellVolumes_fresh_eq_C12", "restored_cellVolumes_C12",
 ]
+EXTRA_PROP_FILES = ["C14b"]
 RULE = ("random grids of every class (UnitGrid, CartesianGrid 1-3d, PolarSymGrid, SphericalSymGrid, "
         "CylindricalSymGrid; 1..40 cells, dyadic and decimal bounds, negative/tiny/huge scales, reversed and "
         "upper-only Cartesian bounds, inner radii, every periodicity pattern) whose constructor arguments are "
@@ -53,7 +58,10 @@ ASSUMPTIONS = [
     "the theorems use lo + (hi - lo) = hi (true in a field); that the IEEE bound pos (+) size survives a second "
     "pass through Cuboid is carried by the bit-exact Float replay and by the monitor (identical bounds on every "
     "route), not by a theorem (no counterexample in 1.2e8 adversarial float pairs)",
-    "pickle and the axes names are not modelled: monitored on the real objects only",
+    "the instance model (Model/GridCache.lean) covers the axes names, the attributes __init__ stores and the "
+    "cached properties cell_volume_data / cell_volumes / coordinate_arrays / cell_coords / uniform_cell_volumes; "
+    "pickle is modelled as `__dict__` without `_cache_methods` (GridBase.__getstate__), the byte stream is not; "
+    "cached METHODS (operators, boundary setters) are outside the model",
 ]
 TRUSTED_EXTRA = ["IEEE double arithmetic of Lean's Float equals numpy's float64 for + - (bounds of the cuboid)"]
 
@@ -1750,6 +1758,168 @@ def leg_fromdata(ctx, P, fd, salt):
 
 
 # ------------------------------------------------------------------------------------------
+# ------------------------------------------------------------------------------------------
+# leg: the instance (axes names, attributes stored by __init__, `_cache_methods`) - Model/GridCache.lean
+CPROPS = ["cell_volume_data", "cell_volumes", "coordinate_arrays", "cell_coords", "uniform_cell_volumes"]
+IROUTES = {"from_state": "from_state", "from_json": "from_json", "copy()": "copy", "copy.copy": "copy",
+           "copy.deepcopy": "copy", "pickle": "pickle", "pickle-protocol-2": "pickle"}
+
+
+def gen_plan(rng, spec):
+    """which cached properties are read before the round trip, which route, which are read afterwards"""
+    big = int(np.prod(spec["shape"])) > 600
+    pool = ["cell_volume_data", "uniform_cell_volumes"] if big else CPROPS
+    reads = [rng.choice(pool) for _ in range(rng.randrange(0, 4))]
+    reads2 = [rng.choice(pool) for _ in range(rng.randrange(1, 4))]
+    return {"reads": reads, "route": rng.choice(sorted(IROUTES)), "reads2": reads2}
+
+
+def cache_keys(g):
+    """names in `_cache_methods` that hold a value"""
+    return sorted(k for k, v in getattr(g, "_cache_methods", {}).items() if len(v))
+
+
+def prop_value(g, name):
+    """a cached property of the real grid in the layout of the model (`CVal`)"""
+    v = getattr(g, name)
+    if name == "uniform_cell_volumes":
+        return bool(v)
+    if name == "cell_volumes":
+        return np.asarray(v, dtype=float).ravel()
+    if name == "cell_volume_data":
+        return [np.broadcast_to(np.asarray(a, dtype=float), (n,)).copy() for a, n in zip(v, g.shape)]
+    if name == "coordinate_arrays":
+        return [np.asarray(a, dtype=float).ravel() for a in v]
+    if name == "cell_coords":
+        return list(np.asarray(v, dtype=float).reshape(-1, g.num_axes))
+    raise KeyError(name)
+
+
+def same_value(a, b):
+    if isinstance(a, bool) or isinstance(b, bool):
+        return a is b
+    if isinstance(a, list):
+        return isinstance(b, list) and len(a) == len(b) and all(np.array_equal(x, y) for x, y in zip(a, b))
+    return np.array_equal(a, b)
+
+
+def restore_by(g, route):
+    from pde.grids.base import GridBase
+    if route == "from_state":
+        return type(g).from_state(g.state)
+    if route == "from_json":
+        return GridBase.from_state(g.state_serialized)
+    if route == "copy()":
+        return g.copy()
+    if route == "copy.copy":
+        return copy.copy(g)
+    if route == "copy.deepcopy":
+        return copy.deepcopy(g)
+    if route == "pickle":
+        return pickle.loads(pickle.dumps(g))
+    if route == "pickle-protocol-2":
+        return pickle.loads(pickle.dumps(g, protocol=2))
+    raise KeyError(route)
+
+
+def inst_rec(g):
+    return {"axes": list(g.axes), "axes_symmetric": list(g.axes_symmetric), "num_axes": int(g.num_axes),
+            "keys": cache_keys(g)}
+
+
+def leg_instance(ctx, P, spec, plan):
+    """warm some cached properties, restore the grid, read properties of the restored grid: monitor = the
+    restored instance answers like a FRESHLY constructed one (names, stored coordinates, every property);
+    correspondence = names, `num_axes`, the entries of `_cache_methods` at every stage and the values against
+    `GridInst` of the model"""
+    mode = mode_of(spec)
+    case = {"leg": "instance", "grid": spec, "plan": plan}
+    ctx.count(case, nontrivial=bool(plan["reads"]) or nontrivial_grid(spec), leg="instance")
+    ctx.hist("instance-route", plan["route"])
+    ctx.hist("instance-reads", f"{len(plan['reads'])} before/{len(plan['reads2'])} after")
+    g = build(spec)
+    fresh = build(spec)
+    r0 = inst_rec(g)
+    vals1 = [prop_value(g, n) for n in plan["reads"]]
+    r1 = inst_rec(g)
+    h = restore_by(g, plan["route"])
+    r2 = inst_rec(h)
+    vals2 = [prop_value(h, n) for n in plan["reads2"]]
+    r3 = inst_rec(h)
+    # ---- monitor (real objects only) -----------------------------------------------------------------------
+    ctx.monitor_evals += 1
+    bad = None
+    if list(h.axes) != list(fresh.axes) or list(h.axes_symmetric) != list(fresh.axes_symmetric):
+        bad = f"axes {h.axes}+{h.axes_symmetric} instead of {fresh.axes}+{fresh.axes_symmetric}"
+    elif h.num_axes != fresh.num_axes or h.dim != fresh.dim:
+        bad = f"num_axes/dim {h.num_axes}/{h.dim} instead of {fresh.num_axes}/{fresh.dim}"
+    elif len(h.axes_coords) != len(fresh.axes_coords) or not all(
+            np.array_equal(a, b) for a, b in zip(h.axes_coords, fresh.axes_coords)):
+        bad = "stored axes_coords differ from a fresh construction"
+    elif not np.array_equal(h.discretization, fresh.discretization):
+        bad = "stored discretization differs from a fresh construction"
+    else:
+        for n, v in zip(plan["reads2"], vals2):
+            if not same_value(v, prop_value(fresh, n)):
+                bad = f"{n} of the restored grid differs from a fresh construction"
+                break
+        else:
+            for n, v in zip(plan["reads"], vals1):
+                if not same_value(v, prop_value(fresh, n)) or not same_value(prop_value(g, n), v):
+                    bad = f"{n} of the original grid differs from a fresh construction / changed by the round trip"
+                    break
+    if bad:
+        ctx.monitor_fail("instance", case, {"problem": bad, "restored": inst_rec(h), "fresh": inst_rec(fresh)},
+                         "the restored grid has the axes names, stored coordinates and (cached) derived attributes "
+                         "of a freshly constructed one", f"{type(g).__name__}: {plan['route']}: {bad}",
+                         key={"grid_class": type(g).__name__, "leg": "instance", "route": plan["route"],
+                              "symptom": bad.split(" of ")[0] if " of the " in bad else bad.split(" ")[0]})
+
+    def cont(resp):
+        m = expect_ok(ctx, resp, "instance", case)
+        if m is None:
+            return
+        ctx.impl_traces += 1
+        if "err" in m or "restore_err" in m:
+            ctx.disagree("instance", case, m, r2, "the model rejects a grid / a round trip the package performs")
+            return
+        for stage, real in (("constructed", r0), ("after_reads", r1), ("restored", r2), ("after_reads2", r3)):
+            mm = m[stage]
+            got = {"axes": mm["axes"], "axes_symmetric": mm["axes_symmetric"], "num_axes": mm["num_axes"],
+                   "keys": sorted(mm["keys"])}
+            if got != real:
+                ctx.disagree("instance", dict(case, stage=stage), got, real,
+                             f"instance {stage}: axes names / num_axes / entries of _cache_methods")
+        if mode != "Q":
+            return
+        dec = lambda x: float(unq(x))
+        for which, names, vals in (("values", plan["reads"], vals1), ("values2", plan["reads2"], vals2)):
+            for (mn, mv), n, v in zip(m[which], names, vals):
+                if mn != n:
+                    ctx.disagree("instance", case, mn, n, "order of the reads")
+                    continue
+                if isinstance(v, bool):
+                    ok = mv is v
+                elif isinstance(v, list):
+                    ok = len(mv) == len(v) and all(len(a) == len(b) for a, b in zip(mv, v))
+                    if ok and v:
+                        sc = max(max((float(np.max(np.abs(b), initial=0.0)) for b in v), default=0.0), 1e-300)
+                        ok = all(bool(np.all(np.abs(np.array([dec(x) for x in a], dtype=float)
+                                                    - np.asarray(b, dtype=float)) <= 1e-11 * sc))
+                                 for a, b in zip(mv, v))
+                else:
+                    ma = np.array([dec(x) for x in mv], dtype=float)
+                    sc = max(float(np.max(np.abs(v), initial=0.0)), 1e-300)
+                    ok = ma.shape == v.shape and bool(np.all(np.abs(ma - v) <= 1e-11 * sc))
+                if not ok:
+                    ctx.disagree("instance", dict(case, prop=n, stage=which), str(mv)[:300],
+                                 str(v if isinstance(v, bool) else [np.asarray(x).tolist() for x in v][:4]
+                                     if isinstance(v, list) else v.tolist()[:8])[:300], f"value of {n}")
+
+    P.add("c14.instance", {"mode": mode, "grid": margs(spec), "pi": (q if mode == "Q" else fbits)(PI),
+                           "reads": plan["reads"], "route": IROUTES[plan["route"]], "reads2": plan["reads2"]}, cont)
+
+
 def _guard(ctx, leg, spec, fn, extra=None):
     """run one leg; an exception raised *inside the real code* on a valid input is a failure of the
     property on that input (reported with the whole input of the leg: `extra` holds what the leg
@@ -1821,7 +1991,21 @@ def grid_legs(ctx, P, spec, rng):
     _guard(ctx, "equality", spec, lambda: leg_equality(ctx, P, spec, rng, pair=(kind, other)),
            extra={"other": other, "kind": kind})
     _guard(ctx, "malformed-grid", spec, lambda: leg_malformed_grid(ctx, P, spec, rng))
+    plan = gen_plan(rng, spec)            # drawn outside the guard (recorded with a crash)
+    _guard(ctx, "instance", spec, lambda: leg_instance(ctx, P, spec, plan), extra={"plan": plan})
     return True
+
+
+# more than three Cartesian axes: the coordinate names change from `x, y, z` to `a, b, c, ...` (leg `instance` only)
+HIGHDIM_GRIDS = [
+    {"cls": "unit", "shape": [1, 2, 1, 2], "periodic": [True, False, True, False], "mode": "dyadic",
+     "style": {"shape": "list", "periodic": "list"}},
+    {"cls": "unit", "shape": [2, 1, 1, 2, 3], "periodic": [False, False, True, False, True], "mode": "dyadic",
+     "style": {"shape": "tuple", "periodic": "tuple"}},
+    {"cls": "cartesian", "bounds": [[0.0, 1.0], [-1.0, 1.0], [0.0, 2.0], [0.5, 1.5]], "shape": [2, 1, 2, 1],
+     "periodic": [False, True, False, False], "mode": "dyadic",
+     "style": {"shape": "list", "periodic": "list", "bounds": "list", "num": "float"}},
+]
 
 
 REGRESSION_FROMDATA = [
@@ -1881,6 +2065,11 @@ def run(ctx):
         sspec = small(spec, rng)
         fd = dict(fd, grid=sspec)
         _guard(ctx, "fromdata", sspec, lambda: leg_fromdata(ctx, P, fd, 1), extra={"fromdata": fd, "salt": 1})
+    for spec in HIGHDIM_GRIDS:
+        ctx.hist("stream", "high-dimensional")
+        for _ in range(4):
+            plan = gen_plan(rng, spec)
+            _guard(ctx, "instance", spec, lambda: leg_instance(ctx, P, spec, plan), extra={"plan": plan})
     for i in range(n_grids):
         cls = CLASSES[i % len(CLASSES)]
         mode = "dyadic" if rng.random() < 0.5 else "decimal"
@@ -1897,7 +2086,7 @@ def run(ctx):
             P.run()
     P.run()
     # ---- floor on the coverage: an empty leg is a broken check, not a pass ------------------------------
-    need = ["grid", "equality", "malformed-grid", "field", "malformed-field", "collection", "malformed-collection", "fromdata"]
+    need = ["grid", "instance", "equality", "malformed-grid", "field", "malformed-field", "collection", "malformed-collection", "fromdata"]
     short = {k: ctx.legs.get(k, 0) for k in need if ctx.legs.get(k, 0) < (n_grids // 20 if k.startswith("malformed-") or k == "equality" else n_grids // 2)}
     if not ctx.monitor_failures and (short or ctx.monitor_evals < 10 * n_grids or ctx.impl_traces < 3 * n_grids):
         from harness.common.lean import BrokenCheck
@@ -1964,6 +2153,9 @@ def _replay_case(sub, P, c, rng):
             return
         _need(c, "tamper", "tree", "via")
         leg_malformed_grid(sub, P, spec, rng, fixed=[(c["tamper"], c["tree"], c["via"])])
+    elif leg == "instance":
+        _need(c, "grid", "plan")
+        leg_instance(sub, P, spec, c["plan"])
     elif leg == "field":
         _need(c, "field")
         leg_field(sub, P, c["field"], c.get("salt", 0))
